@@ -379,6 +379,9 @@ def _intn(ctx):
             got = delivered(cls_name, [b"\x00" * (width - 1)])
             ctx.check(got == [], "intn/prefix-boundary", q + f" | <{width - 1} bytes buffered, {width}-byte prefix>",
                       f"a length prefix is decoded before all its bytes arrived: {got!r}")
+    got = delivered("Int16StringReceiver", [b"\x00\x05PAUSE" + msg])      # the stand-in handler pauses on the string b"PAUSE"
+    ctx.check(got == [("string", b"PAUSE")], "intn/pause-honoured", q + " | <handler pauses inside a delivery>",
+              f"after the handler called pauseProducing() the strings still buffered are delivered in the same dataReceived call: {got!r}")
     got = delivered("Int16StringReceiver", [msg + msg], paused=True)
     ctx.check(got == [], "intn/pause-honoured", q + " | <paused>", f"strings are decoded and delivered although the protocol is paused: {got!r}")
     # (d) def-use chain of the slices
@@ -757,6 +760,8 @@ def _deliver(mod, cls_name, attrs, chunks, resume=True):
     ev = []
 
     def line_received(vm, o, line):
+        if o.attrs.get("paused"):
+            ev.append(("delivered-while-paused", line))
         ev.append(("line", line))
         if line == b"RAW":
             vm.call_method(o, "setRawMode")
@@ -777,6 +782,8 @@ def _deliver(mod, cls_name, attrs, chunks, resume=True):
         return hook
 
     def string_received(vm, o, s_):
+        if o.attrs.get("paused"):
+            ev.append(("delivered-while-paused", s_))
         ev.append(("string", s_))
         if s_ == b"PAUSE":
             vm.call_method(o, "pauseProducing")
@@ -1137,6 +1144,8 @@ MUTANTS = [
     Mutant("line-only-keeps-first-piece", B, "        self._buffer = lines.pop(-1)\n", "        self._buffer = lines.pop(0)\n", expect_rule="line-only/"),
     Mutant("line-only-starred-keeps-first-piece", B, "        lines = (self._buffer + data).split(self.delimiter)\n        self._buffer = lines.pop(-1)\n        for line in lines:\n",
            "        self._buffer, *lines = (self._buffer + data).split(self.delimiter)\n        for line in lines:\n", expect_rule="line-only/"),
+    Mutant("intn-pause-tested-on-entry-only", B, "        while len(alldata) >= (currentOffset + prefixLength) and not self.paused:",
+           "        if self.paused:\n            return\n        while len(alldata) >= (currentOffset + prefixLength):", expect_rule="intn/pause-honoured"),
     Mutant("line-only-new-before-old", B, "        lines = (self._buffer + data).split(self.delimiter)", "        lines = (data + self._buffer).split(self.delimiter)",
            expect_rule="line-only/segmentation-invariant"),
 ]
